@@ -12,7 +12,9 @@
 //   mode 1: n[1] = alphabet id, n[2] = number B of free trailing operations (+100: interior no-ops pruned), n[3..] = prefix operations; the
 //           case stands for ALL histories prefix + (B operations from the alphabet) - used by the exhaustive
 //           enumerator as journal/replay unit.
-// packed operation (decimal digits, most significant first):  value | arg(2) | key(2) | flag*2+inst(1) | code(2)
+// packed operation (decimal digits, most significant first):  value | arg(2) | key%100(2) | (key/100)*4+flag*2+inst(1) | code(2)
+// keys are 0..199. arg 0..79 is the size itself; arg 80.. selects an extreme size from kBigSizes (size_t operations) /
+// kBigTouch (the ssize_t new_size of touch) - see size_of_arg / touch_of_arg.
 #pragma once
 
 #include <sanitizer/lsan_interface.h>
@@ -64,7 +66,30 @@ struct Step {
 };
 
 inline uint64_t pack(unsigned code, unsigned inst, unsigned flag, unsigned key, unsigned arg, uint64_t value) {
-  return code + 100ULL * (inst + 2 * flag) + 1000ULL * key + 100000ULL * arg + 10000000ULL * value;
+  return code + 100ULL * (inst + 2 * flag + 4 * (key / 100)) + 1000ULL * (key % 100) + 100000ULL * arg + 10000000ULL * value;
+}
+
+// sizes are size_t values: besides the small ones the histories use the corners of the type - the first values of the
+// upper half (where a detour through a signed type changes the value), the top of the range, and the largest values
+// of the lower half
+static const unsigned kBigArg = 80;
+static const size_t kBigSizes[] = {
+    static_cast<size_t>(1) << 63, (static_cast<size_t>(1) << 63) + 1, (static_cast<size_t>(1) << 63) + (static_cast<size_t>(1) << 32),
+    static_cast<size_t>(3) << 62, SIZE_MAX - 7, SIZE_MAX - 1, SIZE_MAX, SIZE_MAX / 2, SIZE_MAX / 2 - 1, static_cast<size_t>(1) << 62,
+    static_cast<size_t>(1) << 32, (static_cast<size_t>(1) << 32) - 1, static_cast<size_t>(1) << 31};
+static const unsigned kNumBigSizes = sizeof(kBigSizes) / sizeof(kBigSizes[0]);
+// touch(k, ssize_t new_size): the non-negative extremes (what a negative value other than the default -1 means is not documented)
+static const ssize_t kBigTouch[] = {SSIZE_MAX, SSIZE_MAX - 1, static_cast<ssize_t>(1) << 62, static_cast<ssize_t>(1) << 32, static_cast<ssize_t>(1) << 31};
+static const unsigned kNumBigTouch = sizeof(kBigTouch) / sizeof(kBigTouch[0]);
+inline size_t size_of_arg(unsigned arg) {
+  if (arg < kBigArg) return arg;
+  if (arg - kBigArg >= kNumBigSizes) throw std::logic_error("C12: size selector outside the table");
+  return kBigSizes[arg - kBigArg];
+}
+inline ssize_t touch_of_arg(unsigned arg) { // arg 0 -> -1 (keep the size)
+  if (arg < kBigArg) return static_cast<ssize_t>(arg) - 1;
+  if (arg - kBigArg >= kNumBigTouch) throw std::logic_error("C12: touch size selector outside the table");
+  return kBigTouch[arg - kBigArg];
 }
 inline Step unpack(uint64_t w) {
   Step s;
@@ -72,15 +97,18 @@ inline Step unpack(uint64_t w) {
   unsigned fi = (w / 100) % 10;
   s.inst = fi & 1;
   s.flag = (fi >> 1) & 1;
-  s.key = (w / 1000) % 100;
+  s.key = (w / 1000) % 100 + 100 * (fi >> 2);
   s.arg = (w / 100000) % 100;
   s.value = w / 10000000ULL;
-  if (s.code >= NUM_CODES || fi > 3 || s.value > 0xFFFFFFFFULL) throw std::logic_error("C12: malformed operation word");
+  if (s.code >= NUM_CODES || fi > 7 || s.value > 0xFFFFFFFFULL) throw std::logic_error("C12: malformed operation word");
   return s;
 }
 inline std::string describe(uint64_t w) {
   Step s = unpack(w);
-  return cat(kCodeNames[s.code], "[", s.inst ? "B" : "A", "](key=", s.key, ",arg=", s.arg, ",flag=", s.flag, ",value=", s.value, ")");
+  std::string big;
+  if (s.code == TOUCH && s.arg >= kBigArg && s.arg - kBigArg < kNumBigTouch) big = cat("(new_size ", touch_of_arg(s.arg), ")");
+  else if (s.code != TOUCH && s.arg >= kBigArg && s.arg - kBigArg < kNumBigSizes) big = cat("(size ", size_of_arg(s.arg), ")");
+  return cat(kCodeNames[s.code], "[", s.inst ? "B" : "A", "](key=", s.key, ",arg=", s.arg, big, ",flag=", s.flag, ",value=", s.value, ")");
 }
 inline std::string describe_history(const uint64_t* ops, size_t n, size_t upto) {
   std::string r;
@@ -140,10 +168,12 @@ struct Model {
     return it;
   }
   bool has(unsigned k) { return find(k) != l.end(); }
-  size_t total() const {
-    size_t t = 0;
+  // the sum of the entries' sizes; false when it is not representable in size_t (then "size() is the sum" demands nothing)
+  bool total(size_t* out) const {
+    unsigned __int128 t = 0;
     for (const auto& e : l) t += e.size;
-    return t;
+    *out = static_cast<size_t>(t);
+    return t <= static_cast<unsigned __int128>(SIZE_MAX);
   }
   void refresh(std::list<Entry>::iterator it) {
     if (it != l.begin()) {
@@ -167,6 +197,8 @@ struct Stats {
   size_t pruned_at = SIZE_MAX;
   bool nontrivial = false;
   unsigned max_live = 0;
+  bool big_sizes = false; // an operation carried a size >= 2^31
+  uint64_t sum_overflow_states = 0; // compared states in which the sum of sizes exceeded SIZE_MAX (size() not compared)
 };
 
 #define C12_OP(step) kCodeNames[(step).code]
@@ -206,11 +238,12 @@ struct SetProbe : public phosg::LRUSet<K> {
 };
 
 template <typename K>
-void check_set_state(SetProbe<K>* inst, Model* model, const Where& when) {
+void check_set_state(SetProbe<K>* inst, Model* model, const Where& when, Stats& st) {
   for (int j = 0; j < 2; j++) {
     const char* which = j ? "B" : "A";
-    size_t total = model[j].total();
-    VCHECK(inst[j].size() == total, "size-sum", which, ".size() is ", inst[j].size(), " but the entries' sizes sum to ", total, " after ", when);
+    size_t total;
+    if (model[j].total(&total)) VCHECK(inst[j].size() == total, "size-sum", which, ".size() is ", inst[j].size(), " but the entries' sizes sum to ", total, " after ", when);
+    else st.sum_overflow_states++;
     VCHECK(inst[j].count() == model[j].l.size(), "count", which, ".count() is ", inst[j].count(), " model ", model[j].l.size(), " after ", when);
     // (peek() on an empty set throws; that is exercised by the explicit PEEK operation - an exception per step
     // and instance would dominate the run time under ASan)
@@ -229,7 +262,7 @@ void replay_set(const uint64_t* ops, size_t n, Stats& st) {
   {
     SetProbe<K> inst[2];
     Model model[2];
-    check_set_state(inst, model, Where{ops, 0, 0, "construction"});
+    check_set_state(inst, model, Where{ops, 0, 0, "construction"}, st);
     for (size_t i = 0; i < n; i++) {
       Step s = unpack(ops[i]);
       SetProbe<K>& c = inst[s.inst];
@@ -251,7 +284,7 @@ void replay_set(const uint64_t* ops, size_t n, Stats& st) {
         case INSERT_DEF:
         case EMPLACE:
         case EMPLACE_DEF: {
-          size_t size = (s.code == INSERT_DEF || s.code == EMPLACE_DEF) ? 0 : s.arg;
+          size_t size = (s.code == INSERT_DEF || s.code == EMPLACE_DEF) ? 0 : size_of_arg(s.arg);
           bool r;
           if (s.code == INSERT) r = c.insert(key, size);
           else if (s.code == INSERT_DEF) r = c.insert(key);
@@ -277,7 +310,7 @@ void replay_set(const uint64_t* ops, size_t n, Stats& st) {
         }
         case TOUCH:
         case TOUCH_DEF: {
-          ssize_t ns = (s.code == TOUCH_DEF) ? -1 : static_cast<ssize_t>(s.arg) - 1;
+          ssize_t ns = (s.code == TOUCH_DEF) ? -1 : touch_of_arg(s.arg);
           bool r = (s.code == TOUCH_DEF) ? c.touch(key) : c.touch(key, ns);
           VCHECK(r == existed, "return:touch", "returned ", r, " for a key that ", existed ? "existed" : "did not exist", " at ", when());
           if (existed) {
@@ -287,9 +320,9 @@ void replay_set(const uint64_t* ops, size_t n, Stats& st) {
           break;
         }
         case CHANGE_SIZE: {
-          bool r = c.change_size(key, s.arg);
+          bool r = c.change_size(key, size_of_arg(s.arg));
           VCHECK(r == existed, "return:change_size", "returned ", r, " for a key that ", existed ? "existed" : "did not exist", " at ", when());
-          if (existed) it->size = s.arg; // LRUSet::change_size is not documented to touch
+          if (existed) it->size = size_of_arg(s.arg); // LRUSet::change_size is not documented to touch
           break;
         }
         case EVICT: {
@@ -339,7 +372,8 @@ void replay_set(const uint64_t* ops, size_t n, Stats& st) {
           throw std::logic_error(cat("C12: operation ", kCodeNames[s.code], " does not exist on LRUSet"));
       }
       st.max_live = std::max<unsigned>(st.max_live, std::max(model[0].l.size(), model[1].l.size()));
-      if (i >= st.check_from) check_set_state(inst, model, here);
+      if (s.arg >= kBigArg) st.big_sizes = true;
+      if (i >= st.check_from) check_set_state(inst, model, here, st);
     }
     // final drain: evict_object must replay the model order, oldest first
     for (int j = 0; j < 2; j++) {
@@ -351,7 +385,9 @@ void replay_set(const uint64_t* ops, size_t n, Stats& st) {
         VCHECK(r.first == Conv<K>::key(lru.key) && r.second == lru.size, "drain-order", "final drain of ", which, ": eviction #", k, " is not the model's least recently used entry (model key ", lru.key, " size ", lru.size, ", got size ", r.second, ") after: ", describe_history(ops, n, n));
         model[j].l.pop_back();
         k++;
-        VCHECK(inst[j].size() == model[j].total() && inst[j].count() == model[j].l.size(), "drain-size", "final drain of ", which, ": size()/count() wrong after eviction #", k);
+        size_t total;
+        bool representable = model[j].total(&total);
+        VCHECK((!representable || inst[j].size() == total) && inst[j].count() == model[j].l.size(), "drain-size", "final drain of ", which, ": size()/count() wrong after eviction #", k);
       }
       if (!st.light) {
         bool threw = false;
@@ -404,11 +440,12 @@ struct MapProbe : public phosg::LRUMap<K, V> {
 };
 
 template <typename K, typename V>
-void check_map_state(MapProbe<K, V>* inst, Model* model, unsigned nkeys, const Where& when) {
+void check_map_state(MapProbe<K, V>* inst, Model* model, unsigned nkeys, const Where& when, Stats& st) {
   for (int j = 0; j < 2; j++) {
     const char* which = j ? "B" : "A";
-    size_t total = model[j].total();
-    VCHECK(inst[j].size() == total, "size-sum", which, ".size() is ", inst[j].size(), " but the entries' sizes sum to ", total, " after ", when);
+    size_t total;
+    if (model[j].total(&total)) VCHECK(inst[j].size() == total, "size-sum", which, ".size() is ", inst[j].size(), " but the entries' sizes sum to ", total, " after ", when);
+    else st.sum_overflow_states++;
     VCHECK(inst[j].count() == model[j].l.size(), "count", which, ".count() is ", inst[j].count(), " model ", model[j].l.size(), " after ", when);
     VCHECK(inst[j].empty() == model[j].l.empty(), "empty", which, ".empty() is ", inst[j].empty(), " with ", model[j].l.size(), " model entries after ", when);
     // item_size is the one lookup that is documented not to touch: ask it for every key of the history
@@ -434,7 +471,7 @@ void replay_map(const uint64_t* ops, size_t n, Stats& st) {
   {
     MapProbe<K, V> inst[2];
     Model model[2];
-    check_map_state(inst, model, nkeys, Where{ops, 0, 0, "construction"});
+    check_map_state(inst, model, nkeys, Where{ops, 0, 0, "construction"}, st);
     for (size_t i = 0; i < n; i++) {
       Step s = unpack(ops[i]);
       MapProbe<K, V>& c = inst[s.inst];
@@ -457,7 +494,7 @@ void replay_map(const uint64_t* ops, size_t n, Stats& st) {
         case INSERT_DEF:
         case INSERT_CREF:
         case INSERT_CREF_DEF: {
-          size_t size = (s.code == INSERT_DEF || s.code == INSERT_CREF_DEF) ? 1 : s.arg;
+          size_t size = (s.code == INSERT_DEF || s.code == INSERT_CREF_DEF) ? 1 : size_of_arg(s.arg);
           bool r;
           if (s.code == INSERT) r = c.insert(std::move(key), std::move(value), size);
           else if (s.code == INSERT_DEF) r = c.insert(std::move(key), std::move(value));
@@ -487,7 +524,7 @@ void replay_map(const uint64_t* ops, size_t n, Stats& st) {
         }
         case EMPLACE:
         case EMPLACE_DEF: {
-          size_t size = (s.code == EMPLACE_DEF) ? 1 : s.arg;
+          size_t size = (s.code == EMPLACE_DEF) ? 1 : size_of_arg(s.arg);
           bool r = (s.code == EMPLACE) ? c.emplace(std::move(key), std::move(value), size) : c.emplace(std::move(key), std::move(value));
           VCHECK(r == !existed, cat("return:", C12_OP(s)), "returned ", r, " for a key that ", existed ? "existed" : "was new", " at ", when());
           // emplace on an existing key changes nothing (value, size and recency stay)
@@ -505,7 +542,7 @@ void replay_map(const uint64_t* ops, size_t n, Stats& st) {
         }
         case TOUCH:
         case TOUCH_DEF: {
-          ssize_t ns = (s.code == TOUCH_DEF) ? -1 : static_cast<ssize_t>(s.arg) - 1;
+          ssize_t ns = (s.code == TOUCH_DEF) ? -1 : touch_of_arg(s.arg);
           bool r = (s.code == TOUCH_DEF) ? c.touch(key) : c.touch(key, ns);
           VCHECK(r == existed, "return:touch", "returned ", r, " for a key that ", existed ? "existed" : "did not exist", " at ", when());
           if (existed) {
@@ -517,10 +554,11 @@ void replay_map(const uint64_t* ops, size_t n, Stats& st) {
         case CHANGE_SIZE:
         case CS_DEF: {
           bool touch = (s.code == CS_DEF) ? true : (s.flag != 0);
-          bool r = (s.code == CS_DEF) ? c.change_size(key, s.arg) : c.change_size(key, s.arg, touch);
+          size_t new_size = size_of_arg(s.arg);
+          bool r = (s.code == CS_DEF) ? c.change_size(key, new_size) : c.change_size(key, new_size, touch);
           VCHECK(r == existed, "return:change_size", "returned ", r, " for a key that ", existed ? "existed" : "did not exist", " at ", when());
           if (existed) {
-            it->size = s.arg;
+            it->size = new_size;
             if (touch) m.refresh(it);
           }
           break;
@@ -597,7 +635,8 @@ void replay_map(const uint64_t* ops, size_t n, Stats& st) {
           throw std::logic_error(cat("C12: operation ", kCodeNames[s.code], " does not exist on LRUMap"));
       }
       st.max_live = std::max<unsigned>(st.max_live, std::max(model[0].l.size(), model[1].l.size()));
-      if (i >= st.check_from) check_map_state(inst, model, nkeys, here);
+      if (s.arg >= kBigArg) st.big_sizes = true;
+      if (i >= st.check_from) check_map_state(inst, model, nkeys, here, st);
     }
     for (int j = 0; j < 2; j++) {
       const char* which = j ? "B" : "A";
@@ -609,7 +648,9 @@ void replay_map(const uint64_t* ops, size_t n, Stats& st) {
         VCHECK(r.value == Conv<V>::value(lru.value), "drain-value", "final drain of ", which, ": eviction #", k, " does not carry the last stored value of key ", lru.key, " after: ", describe_history(ops, n, n));
         model[j].l.pop_back();
         k++;
-        VCHECK(inst[j].size() == model[j].total() && inst[j].count() == model[j].l.size(), "drain-size", "final drain of ", which, ": size()/count() wrong after eviction #", k);
+        size_t total;
+        bool representable = model[j].total(&total);
+        VCHECK((!representable || inst[j].size() == total) && inst[j].count() == model[j].l.size(), "drain-size", "final drain of ", which, ": size()/count() wrong after eviction #", k);
       }
       if (!st.light) {
         bool threw = false;
@@ -677,6 +718,30 @@ inline std::vector<Alphabet> make_alphabets(bool gated) {
     x.shapes.push_back(pack(CLEAR, 0, 0, 0, 0, 0));
     if (gated) keyed(x.shapes, INSERT, 1);
     a.push_back(x); // 30 (33 gated) shapes
+  }
+  // sizes at the corners of size_t / ssize_t on new and on existing keys (indices 4 = set, 5 = map): 2^63 (arg 80), 2^63+1 (81),
+  // SIZE_MAX (86); touch with SSIZE_MAX (arg 80 of the touch table); small sizes to come back from
+  {
+    Alphabet s{"set-extreme-sizes", false, {}};
+    keyed(s.shapes, INSERT, 1);
+    keyed(s.shapes, INSERT, kBigArg + 6);
+    keyed(s.shapes, EMPLACE, kBigArg + 0);
+    keyed(s.shapes, EMPLACE, 2);
+    keyed(s.shapes, TOUCH, kBigArg + 0);
+    keyed(s.shapes, CHANGE_SIZE, kBigArg + 1);
+    s.shapes.push_back(pack(EVICT, 0, 0, 0, 0, 0));
+    s.shapes.push_back(pack(CLEAR, 0, 0, 0, 0, 0));
+    a.push_back(s); // 20 shapes
+    Alphabet m{"map-extreme-sizes", true, {}};
+    keyed(m.shapes, gated ? INSERT_CREF : INSERT, 1);
+    keyed(m.shapes, INSERT, kBigArg + 6);
+    keyed(m.shapes, EMPLACE, kBigArg + 0);
+    keyed(m.shapes, TOUCH, kBigArg + 0);
+    keyed(m.shapes, CHANGE_SIZE, kBigArg + 1, 0);
+    keyed(m.shapes, CHANGE_SIZE, 2, 1);
+    m.shapes.push_back(pack(EVICT, 0, 0, 0, 0, 0));
+    m.shapes.push_back(pack(CLEAR, 0, 0, 0, 0, 0));
+    a.push_back(m); // 20 shapes
   }
   return a;
 }
@@ -765,7 +830,9 @@ inline std::function<void(const Case&)> make_run(const Variant& v, bool gated) {
       v.replay(c.n.data() + 1, c.n.size() - 1, st);
       if (st.nontrivial) ctx().nontrivial_case();
       ctx().cls(cat(v.name, ":ops<=", c.n.size() <= 9 ? "8" : c.n.size() <= 41 ? "40" : c.n.size() <= 151 ? "150" : "400"));
-      ctx().cls(cat(v.name, ":max-live-keys=", st.max_live >= 6 ? std::string("6+") : cat(st.max_live)));
+      ctx().cls(cat(v.name, ":max-live-keys=", st.max_live >= 60 ? std::string("60+") : st.max_live >= 6 ? std::string("6..59") : cat(st.max_live)));
+      if (st.big_sizes) ctx().cls(cat(v.name, ":extreme-sizes"));
+      if (st.sum_overflow_states) ctx().cls(cat(v.name, ":states-with-unrepresentable-sum(size()-not-compared)"), st.sum_overflow_states);
     } else if (mode == 1) {
       auto alphabets = make_alphabets(gated);
       const Alphabet& al = alphabets.at(c.u(1));
@@ -843,21 +910,54 @@ inline Case gen_history(const Variant& v, bool gated) {
   uint64_t len = 1 + vg::scaled(maxlen - 1);
   unsigned nkeys = vg::chance(1, 12) ? 40 : 1 + vg::below(8);
   bool two = vg::chance(1, 2); // operations on the second instance too
+  // a quarter of the histories draw a fifth of their sizes from the corners of size_t / ssize_t
+  bool extreme = vg::chance(1, 4);
   static const unsigned sizes[4] = {0, 1, 2, 7};
+  uint64_t pos = 0;
+  // one history in 25 runs over a large key universe (60..200 keys): a build-up phase puts 60..min(nkeys,150) distinct keys into
+  // ONE instance (the hash table grows through several rehashes; nothing in this phase removes an entry), then the usual
+  // mix - with clear() twice as likely - continues on that state over the whole universe
+  if (vg::chance(1, 25)) {
+    nkeys = 60 + vg::below(141);
+    unsigned target = 60 + vg::below(std::min<unsigned>(nkeys, 150) - 59);
+    unsigned start = vg::below(nkeys), step = vg::pick<unsigned>({1, 211, 223}); // primes > 200: i*step mod nkeys is a permutation
+    unsigned inst = two ? vg::below(2) : 0;
+    for (unsigned fresh = 0; fresh < target;) {
+      unsigned code, key, arg = sizes[vg::below(4)], flag = 0;
+      if (extreme && vg::chance(1, 5)) arg = kBigArg + vg::below(kNumBigSizes);
+      unsigned r = vg::below(100);
+      if (r < 85) {
+        key = (start + fresh * step) % nkeys;
+        fresh++;
+        code = vg::pick<unsigned>({INSERT, INSERT, EMPLACE, v.is_map ? INSERT_DEF : EMPLACE_DEF});
+        if (v.is_map && gated && code == INSERT && vg::coin()) code = INSERT_CREF;
+      } else {
+        // an operation on a key that is probably present: re-insert, touch, change_size, lookup
+        key = (start + vg::below(std::max(fresh, 1u)) * step) % nkeys;
+        code = vg::pick<unsigned>({INSERT, EMPLACE, TOUCH_DEF, CHANGE_SIZE, v.is_map ? AT : PEEK});
+        if (code == CHANGE_SIZE && v.is_map) flag = vg::below(2);
+      }
+      c.N(pack(code, inst, flag, key, arg, ++pos));
+    }
+    len = 1 + vg::scaled(150);
+  }
+  bool wide = nkeys >= 60;
   for (uint64_t i = 0; i < len; i++) {
     unsigned inst = two ? vg::below(2) : 0;
     unsigned key = vg::below(nkeys);
     unsigned size = sizes[vg::below(4)];
-    uint64_t value = i + 1;
+    if (extreme && vg::chance(1, 5)) size = kBigArg + vg::below(kNumBigSizes);
+    uint64_t value = ++pos;
     unsigned code, arg = size, flag = 0;
     unsigned r = vg::below(100);
+    if (wide && vg::chance(1, 40)) r = 93; // CLEAR on either container
     if (!v.is_map) {
       if (r < 22) code = INSERT;
       else if (r < 32) code = EMPLACE;
       else if (r < 35) code = INSERT_DEF;
       else if (r < 38) code = EMPLACE_DEF;
       else if (r < 52) code = ERASE;
-      else if (r < 66) { code = TOUCH; arg = vg::pick<unsigned>({0, 0, 1, 2, 3, 8}); }
+      else if (r < 66) { code = TOUCH; arg = (extreme && vg::chance(1, 5)) ? kBigArg + vg::below(kNumBigTouch) : vg::pick<unsigned>({0, 0, 1, 2, 3, 8}); }
       else if (r < 70) code = TOUCH_DEF;
       else if (r < 78) code = CHANGE_SIZE;
       else if (r < 90) code = EVICT;
@@ -871,7 +971,7 @@ inline Case gen_history(const Variant& v, bool gated) {
       else if (r < 30) code = gated ? INSERT_CREF_DEF : INSERT_DEF;
       else if (r < 32) code = EMPLACE_DEF;
       else if (r < 44) code = ERASE;
-      else if (r < 52) { code = TOUCH; arg = vg::pick<unsigned>({0, 0, 1, 2, 3, 8}); }
+      else if (r < 52) { code = TOUCH; arg = (extreme && vg::chance(1, 5)) ? kBigArg + vg::below(kNumBigTouch) : vg::pick<unsigned>({0, 0, 1, 2, 3, 8}); }
       else if (r < 54) code = TOUCH_DEF;
       else if (r < 61) { code = CHANGE_SIZE; flag = vg::below(2); }
       else if (r < 63) code = CS_DEF;
